@@ -843,6 +843,8 @@ fn oracle(tys: &[Ty], real: &Real) -> (String, String) {
 //   wrap        : m (in main) u (in a function nobody calls) t (in a function template instantiated from main)
 //                 t0 (in a function template that is never instantiated) me (in a struct method)
 //                 p (buffer is a function parameter) a (buffer is an element of a global array of buffers)
+//                 gi (initialiser of a static global) da (default argument of a function) ex (operand of sizeof in
+//                 main, no variable of the type anywhere); gi / da: plain loads only, ex: loads only
 // observe : ok | unknown@L | mismatch@L hlsl=SIZE/ALIGN metal=SIZE/ALIGN | error | panic:<message>
 //   L = G<site index> (located at that global) | T<type index> (located at that struct's definition) | ?
 // ------------------------------------------------------------------------------------------------
@@ -853,7 +855,7 @@ pub const GLOBAL_KINDS: &[&str] = &[
 pub const FN_KINDS: &[&str] = &[
     "bload", "bload2", "rwbload", "rwbload2", "rwbstore", "rwbstoret", "baload", "rwbaload", "rwbastore", "rwbastoret",
 ];
-pub const WRAPS: &[&str] = &["m", "u", "t", "t0", "me", "p", "a"];
+pub const WRAPS: &[&str] = &["m", "u", "t", "t0", "me", "p", "a", "gi", "da", "ex"];
 
 #[derive(Clone, Debug)]
 pub struct Site {
@@ -912,7 +914,13 @@ pub fn parse_prog(f: &[&str]) -> Option<Prog> {
             Some((k, w)) => (k, w),
             None => (lhs, ""),
         };
-        let good = if wrap.is_empty() { GLOBAL_KINDS.contains(&kind) } else { FN_KINDS.contains(&kind) && WRAPS.contains(&wrap) };
+        let mut good = if wrap.is_empty() { GLOBAL_KINDS.contains(&kind) } else { FN_KINDS.contains(&kind) && WRAPS.contains(&wrap) };
+        if (wrap == "gi" || wrap == "da") && !["bload", "rwbload", "baload", "rwbaload"].contains(&kind) {
+            good = false;
+        }
+        if wrap == "ex" && !["bload", "bload2", "rwbload", "rwbload2", "baload", "rwbaload"].contains(&kind) {
+            good = false;
+        }
         if !good {
             return None;
         }
@@ -1041,6 +1049,10 @@ fn prog_source(p: &Prog) -> (String, ProgLines) {
             "t" | "t0" => s.lines.push(format!(
                 "template<typename T> void ft{}() {{ {} }}", i, stmts(site, i, var, "T")
             )),
+            "gi" => s.lines.push(format!("static {} gi{} = {}.Load<{}>(0);", n, i, var, targ(n))),
+            "da" => s.lines.push(format!(
+                "float fda{}(uint q = sizeof({}.Load<{}>(0))) {{ return 0; }}", i, var, targ(n)
+            )),
             _ => {}
         }
     }
@@ -1055,6 +1067,10 @@ fn prog_source(p: &Prog) -> (String, ProgLines) {
             "m" => s.lines.push(format!("  {}", stmts(site, i, var, n))),
             "a" => s.lines.push(format!("  {}", stmts(site, i, &format!("{}_a[1]", var), n))),
             "t" => s.lines.push(format!("  ft{}<{}>();", i, targ(n))),
+            "ex" => s.lines.push(match site.kind.as_str() {
+                "bload2" | "rwbload2" => format!("  uint st{}; sizeof({}.Load<{}>(0, st{}));", i, var, targ(n), i),
+                _ => format!("  sizeof({}.Load<{}>(0));", var, targ(n)),
+            }),
             _ => {}
         }
     }
@@ -1446,6 +1462,11 @@ fn all_sites() -> Vec<(String, String)> {
     let mut v: Vec<(String, String)> = GLOBAL_KINDS.iter().map(|k| (k.to_string(), String::new())).collect();
     for k in FN_KINDS {
         for w in WRAPS {
+            let plain_load = ["bload", "rwbload", "baload", "rwbaload"].contains(k);
+            let load = plain_load || ["bload2", "rwbload2"].contains(k);
+            if ((*w == "gi" || *w == "da") && !plain_load) || (*w == "ex" && !load) {
+                continue;
+            }
             v.push((k.to_string(), w.to_string()));
         }
     }
